@@ -102,7 +102,8 @@ def run_fuzz_case(ctx, kind_, idx):
                 info["request"] = ["truncate_by_value(ratios)", list(a)]
                 call = lambda: wv.truncate_by_value(a[0], a[1], True, True)
             elif t == 4:
-                pick = lambda: float(wx[int(rng.integers(0, n))]) if rng.integers(0, 2) else float(rng.uniform(lo, hi))
+                pick = lambda: float(wx[int(rng.integers(0, n))]) if rng.integers(0, 2) else \
+                    (float(rng.uniform(lo, hi)) if rng.integers(0, 4) else 0)
                 a = (pick(), pick())
                 info["request"] = ["slice_by_value", list(a)]
                 call = lambda: wv.slice_by_value(*a)
@@ -290,11 +291,15 @@ def run_case(ctx, kind_, idx):
                     miss = float(wx[j]) + 0.41 * float(wx[j + 1] - wx[j])
                     beyond = float(wx[-1]) + 1.0
                     m = miss if rng.integers(0, 3) else beyond
+                    if rng.integers(0, 3) == 0 and not np.any(np.asarray(wx) == 0):
+                        # special value: an exact zero that is not a sample (falsy arguments must not mean "omitted")
+                        m = miss = [0, 0.0, np.int64(0)][int(rng.integers(0, 3))]
+                        beyond = float(wx[-1]) + 1.0 if float(wx[-1]) + 1.0 != 0 else float(wx[-1]) + 2.0
                     good_lo, good_hi = float(wx[0]), float(wx[-1])
                     args = {"slice_value_start_missing": (m if m < good_hi else miss, good_hi),
                             "slice_value_stop_missing": (good_lo, m),
                             "slice_value_both_missing": (miss, beyond)}[c]
-                    info["args"] = list(args)
+                    info["args"] = [repr(v) for v in args]
                     call = lambda: wv.slice_by_value(*args)
                 elif c in ("grid_first_point", "grid_last_point"):
                     g = np.linspace(float(wx[0]), float(wx[-1]), int(rng.integers(4, 30)))
